@@ -357,8 +357,8 @@ def short_circuit_failures(r, txn, n):
     return fails
 
 
-LITERALS = ['netflix.com', 'US*AB12', '*STEAM', 'A+B', '(x', '[y', 'a|b', 'c?d', '^UBER', 'UBER$', 'a\\\\b', 'x{2}', '$5', 'J.CREW', 'T?J', 'AT&T', '#45']
-LITERAL_DESCRIPTIONS = ['NETFLIXXCOM 12', 'NETFLIX.COM 12', 'US*AB12 STORE', 'USAB12 STORE', 'USSSAB12', '*STEAM GAMES', 'STEAM GAMES', 'A+B MARKET',
+LITERALS = ['CAFÉ\u00a0ROMA', 'ＡＭＡＺＯＮ', 'ﬁne', '™', '½ OFF', 'A\u2009B', 'ROMA', 'AMAZON', 'netflix.com', 'US*AB12', '*STEAM', 'A+B', '(x', '[y', 'a|b', 'c?d', '^UBER', 'UBER$', 'a\\\\b', 'x{2}', '$5', 'J.CREW', 'T?J', 'AT&T', '#45']
+LITERAL_DESCRIPTIONS = ['CAFÉ\u00a0ROMA 12', 'ＡＭＡＺＯＮ ＭＫＴＰ', 'ﬁne foods™', '½ OFF SALE', 'A\u2009B STORE', 'CAFÉ ROMA', 'AMAZON MKTP', 'NETFLIXXCOM 12', 'NETFLIX.COM 12', 'US*AB12 STORE', 'USAB12 STORE', 'USSSAB12', '*STEAM GAMES', 'STEAM GAMES', 'A+B MARKET',
                         'AAB MARKET', 'UBER (x TRIP', 'a|b shop', 'a shop', 'cd', 'c?d', 'UBER$ x', 'xUBER', '^UBER', 'xx', 'x{2}', 'J.CREW', 'JXCREW',
                         'TJ MAXX', 'T?J', 'pay $5', 'AT&T #45']
 
@@ -377,6 +377,11 @@ def literal_failures(r, n):
                            (f'anyof("{p2}")', q2.upper() in U), (f'"{p1}" in description', q1.upper() in U)):
             o = ev(text, txn)
             if not same(o, {'ok': exprs.val_json(want)}):
+                fails.append({'class': 'literal-text', 'expr': text, 'observed': o, 'required': {'ok': exprs.val_json(want)}, 'txn': RC.jtxn(txn)})
+        for text, want in ((f'description == "{desc}"', True), ('len(description)', len(desc)), ('substring(0, 3)', desc[0:3]),
+                           ('uppercase(description)', desc.upper()), ('split(" ", 0)', desc.split(' ')[0].strip())):
+            o = ev(text, txn)
+            if '"' not in desc and not same(o, {'ok': exprs.val_json(want)}):
                 fails.append({'class': 'literal-text', 'expr': text, 'observed': o, 'required': {'ok': exprs.val_json(want)}, 'txn': RC.jtxn(txn)})
         x, y = ev(f'anyof("{p1}", "{p2}")', txn), ev(f'contains("{p1}") or contains("{p2}")', txn)
         if not same(x, y):
